@@ -234,3 +234,155 @@ func (e *Engine) inlinedOnlyHelpers(keys []string) map[string]bool {
 	}
 	return res
 }
+
+// sourceHasFunc: does the source declare the function a contract key names (pkg.Func, pkg.Type.Method, pkg.Func$N)?
+// Generic functions and methods that are never instantiated have no SSA body to verify, yet they exist.
+func (e *Engine) sourceHasFunc(key string) bool {
+	base := key
+	closure := 0
+	if i := strings.Index(base, "$"); i >= 0 {
+		rest := base[i+1:]
+		if j := strings.Index(rest, "$"); j >= 0 {
+			rest = rest[:j]
+		}
+		fmt.Sscanf(rest, "%d", &closure)
+		base = base[:i]
+	}
+	if h := strings.Index(base, "#"); h >= 0 {
+		base = base[:h]
+	}
+	parts := strings.Split(base, ".")
+	if len(parts) < 2 {
+		return false
+	}
+	pkg := e.pkgByName[parts[0]]
+	if pkg == nil || pkg.Pkg == nil {
+		return false
+	}
+	obj := pkg.Pkg.Scope().Lookup(parts[1])
+	if obj == nil {
+		return false
+	}
+	var found bool
+	switch o := obj.(type) {
+	case *types.Func:
+		found = len(parts) == 2
+	case *types.TypeName:
+		if len(parts) == 3 {
+			if named, ok := o.Type().(*types.Named); ok {
+				for i := 0; i < named.NumMethods(); i++ {
+					if named.Method(i).Name() == parts[2] {
+						found = true
+					}
+				}
+			}
+		}
+	}
+	if !found {
+		return false
+	}
+	if closure > 0 {
+		// a function literal inside: it exists when the enclosing function has that many
+		for _, f := range e.fnByKey[base] {
+			if len(f.AnonFuncs) >= closure {
+				return true
+			}
+		}
+		return len(e.fnByKey[base]) == 0
+	}
+	return true
+}
+
+// usesOf: the top-level functions that call f statically, and whether f is used in any other way (as a value,
+// spawned, deferred). Cached.
+func (e *Engine) usesOf(f *ssa.Function) (callers map[*ssa.Function]bool, onlyCalled bool) {
+	if e.usesCache == nil {
+		e.usesCache = map[*ssa.Function]*fnUses{}
+		for fn := range e.allFns {
+			if !e.inRepo(fn) {
+				continue
+			}
+			for _, b := range fn.Blocks {
+				for _, in := range b.Instrs {
+					if _, isDbg := in.(*ssa.DebugRef); isDbg {
+						continue
+					}
+					var callee *ssa.Function
+					if ci, ok := in.(ssa.CallInstruction); ok {
+						if _, isGo := in.(*ssa.Go); !isGo {
+							if _, isDefer := in.(*ssa.Defer); !isDefer {
+								callee = ci.Common().StaticCallee()
+							}
+						}
+					}
+					for _, op := range in.Operands(nil) {
+						if op == nil || *op == nil {
+							continue
+						}
+						g, ok := (*op).(*ssa.Function)
+						if !ok || !e.inRepo(g) {
+							continue
+						}
+						u := e.usesCache[g]
+						if u == nil {
+							u = &fnUses{callers: map[*ssa.Function]bool{}}
+							e.usesCache[g] = u
+						}
+						if ci, isCall := in.(ssa.CallInstruction); isCall && callee == g && ci.Common().Value == *op {
+							u.callers[topFn(fn)] = true
+						} else if _, isMC := in.(*ssa.MakeClosure); !isMC {
+							u.other = true
+						}
+					}
+				}
+			}
+		}
+	}
+	u := e.usesCache[f]
+	if u == nil {
+		return nil, true
+	}
+	return u.callers, !u.other
+}
+
+type fnUses struct {
+	callers map[*ssa.Function]bool
+	other   bool
+}
+
+// helperOf: fn (or the function it is nested in) is an unexported top-level function without a contract whose
+// every use is a static call from a function satisfying ok, or from another such helper. Such a helper is part of
+// its callers for the purposes of rules that name functions (it is verified inlined into them).
+func (e *Engine) helperOf(fn *ssa.Function, ok func(key string) bool) bool {
+	seen := map[*ssa.Function]bool{}
+	var rec func(f *ssa.Function) bool
+	rec = func(f *ssa.Function) bool {
+		f = topFn(f)
+		if seen[f] {
+			return true
+		}
+		seen[f] = true
+		k := e.fnKey(f)
+		if ok(k) {
+			return true
+		}
+		if e.contracts.Funcs[k] != nil || f.Object() == nil || f.Object().Exported() || f.Signature.Recv() != nil && false {
+			return false
+		}
+		callers, onlyCalled := e.usesOf(f)
+		if !onlyCalled || len(callers) == 0 {
+			return false
+		}
+		for c := range callers {
+			if !rec(c) {
+				return false
+			}
+		}
+		return true
+	}
+	k := e.fnKey(topFn(fn))
+	if ok(k) {
+		return true
+	}
+	return rec(fn)
+}
